@@ -28,14 +28,15 @@ EXEMPT = {
 
 
 class Ty:
-    __slots__ = ('classes', 'optional')
+    __slots__ = ('classes', 'optional', 'plain')
 
-    def __init__(self, classes: frozenset = frozenset(), optional: bool = False) -> None:
+    def __init__(self, classes: frozenset = frozenset(), optional: bool = False, plain: frozenset = frozenset()) -> None:
         self.classes = classes
         self.optional = optional
+        self.plain = plain            # names of plain value types with falsy members: 'str', 'Decimal', 'int'
 
     def __or__(self, other: 'Ty') -> 'Ty':
-        return Ty(self.classes | other.classes, self.optional or other.optional)
+        return Ty(self.classes | other.classes, self.optional or other.optional, self.plain | other.plain)
 
 
 class Typer:
@@ -74,7 +75,7 @@ class Typer:
             head = norm(a.value).rsplit('.', 1)[-1]
             if head == 'Optional':
                 inner = self.ann(m, a.slice, cls, depth + 1)
-                return None if inner is None else Ty(inner.classes, True)
+                return None if inner is None else Ty(inner.classes, True, inner.plain)
             if head == 'Union':
                 elts = a.slice.elts if isinstance(a.slice, ast.Tuple) else [a.slice]
                 out = Ty()
@@ -86,8 +87,14 @@ class Typer:
                 return out
             if head in ('Type', 'type', 'Callable', 'Literal'):
                 return None
+            if head in ('Iterable', 'Sequence', 'Collection', 'Container', 'Mapping', 'MutableSequence', 'MutableMapping', 'AbstractSet', 'Set',
+                        'FrozenSet', 'List', 'Tuple', 'Dict', 'list', 'tuple', 'set', 'frozenset', 'dict'):
+                return Ty(plain=frozenset(['collection']))     # has empty (falsy) members
             return self.ann(m, a.value, cls, depth + 1)
         if isinstance(a, (ast.Name, ast.Attribute)):
+            last = norm(a).rsplit('.', 1)[-1]
+            if last in ('str', 'Decimal', 'int') and norm(a) in ('str', 'int', 'decimal.Decimal', 'Decimal'):
+                return Ty(plain=frozenset([last]))
             if isinstance(a, ast.Name) and a.id == 'Self' and cls is not None:
                 return Ty(frozenset([cls]))
             s = self.p.resolve_expr(m, a)
@@ -134,6 +141,10 @@ class Typer:
                 a0 = s.arg(0)
                 if isinstance(a0, ast.Name):
                     return self.attr(owner, a0.id)
+            if kind in ('optional_string_property', 'optional_indented_string_property'):
+                return Ty(optional=True, plain=frozenset(['str']))
+            if kind == 'optional_decimal_property':
+                return Ty(optional=True, plain=frozenset(['Decimal']))
             if kind == 'unordered_node_property':
                 a1 = s.arg(1)
                 t = self.ann(owner.module, a1, owner) if a1 is not None else None
@@ -277,7 +288,14 @@ def truth_contexts(fn: FuncInfo) -> Iterator[tuple[ast.AST, str]]:
             for i, v in enumerate(e.values):
                 last = i == len(e.values) - 1
                 if not last or tested:
-                    yield from operands(v, True, f'operand of `{type(e.op).__name__.lower()}`' if not last else why)
+                    nxt = e.values[i + 1] if not last else None
+                    empty_default = isinstance(e.op, ast.Or) and nxt is not None and (
+                        (isinstance(nxt, (ast.List, ast.Tuple, ast.Set)) and not nxt.elts) or (isinstance(nxt, ast.Dict) and not nxt.keys)
+                        or (isinstance(nxt, ast.Constant) and nxt.value in ('', 0, b''))
+                        or (isinstance(nxt, ast.Call) and not nxt.args and not nxt.keywords and isinstance(nxt.func, ast.Name)
+                            and nxt.func.id in ('list', 'tuple', 'set', 'frozenset', 'dict', 'str')))
+                    yield from operands(v, True, (f'operand of `{type(e.op).__name__.lower()}`' + (' with an empty default' if empty_default else ''))
+                                        if not last else why)
                 else:
                     yield from operands(v, False, why)
         elif isinstance(e, ast.UnaryOp) and isinstance(e.op, ast.Not):
@@ -345,6 +363,19 @@ def rule_presence_truth(ctx: RuleContext, p: Program, rid: str, minimum: int = 6
                 if local is None:
                     local = ty.locals_of(fn)
                 t = ty.expr(fn, e, local)
+                if t is not None and t.optional and t.plain and not t.classes:
+                    n_typed += 1
+                    if why.endswith('with an empty default'):
+                        continue          # `x or ''` / `xs or ()`: the falsy member and None give the same result by construction
+                    site = f'{m.name.split(".", 1)[-1]}:{fn.qualname}'
+                    falsy = {'str': "''", 'Decimal': 'Decimal(0)', 'int': '0', 'collection': 'an empty collection'}
+                    ctx.fail(rid, site, f'{norm(e)} : Optional[{"|".join(sorted(t.plain))}]',
+                             f'`{norm(e)}` ({why}) is Optional[{" | ".join(sorted(t.plain))}] and is tested by truthiness: '
+                             f'{", ".join(falsy[x] for x in sorted(t.plain))} is a legitimate value, not an absent one, so assigning / holding it takes '
+                             f'the "absent" branch (an empty payee counts as no payee, a zero tolerance is rebuilt instead of updated in place, an '
+                             f'empty selection of comments means "all of them")',
+                             f'{m.relpath}:{getattr(e, "lineno", fn.node.lineno)}')
+                    continue
                 if t is None or not t.optional or not t.classes:
                     continue
                 if (site_key := f'{fn.qualname}: {norm(e)}') in EXEMPT:
